@@ -1030,6 +1030,8 @@ impl Stdfs {
             if !path.exists() {
                 fs::create_dir(&path)?;
                 fs::set_permissions(&path, fs::Permissions::from_mode(mode))?;
+            } else if !path.is_dir() {
+                return Err(PathError::IsNotDir(path).into());
             }
         }
         Ok(abs)
